@@ -21,7 +21,7 @@ RULE = (
 )
 ASSUMPTIONS = ["reference Uhlmann fidelity via eigh (cross-checked against the nuclear-norm formula in the self-test), tolerance 1e-7",
                "inputs that graphiq's own is_density_matrix rejects are counted as rejected_by_precondition (at most a few %)"]
-REQUIRED_CLASSES = {"pairs": ["mixed-mixed", "pure-mixed", "pure-pure", "equal", "orthogonal", "low_rank"],
+REQUIRED_CLASSES = {"pairs": ["mixed-mixed", "pure-mixed", "pure-pure", "equal", "orthogonal", "low_rank", "almost_pure_band"],
                     "ptrace": ["qutrit", "entangled", "middle_subset"], "metric": ["state_graph", "state_not_graph"]}
 
 TOL = 1e-7
@@ -46,6 +46,13 @@ def make_dm(spec, d):
     elif kind == "nearly_pure":
         v = a[:, 0] / np.linalg.norm(a[:, 0])
         rho = 0.999 * np.outer(v, v.conj()) + 0.001 * np.eye(d) / d
+    elif kind == "band":
+        # almost pure: purity 1 - O(1e-5 .. 1e-9), the band in which a loose purity test would still say "pure"
+        v = a[:, 0] / np.linalg.norm(a[:, 0])
+        e = 10.0 ** (-(5 + seed % 5))
+        w = a[:, 1 % d] - np.vdot(v, a[:, 1 % d]) * v if d > 1 else v
+        w = w / np.linalg.norm(w)
+        rho = (1 - e) * np.outer(v, v.conj()) + e * np.outer(w, w.conj())
     elif kind == "real":
         b = a.real
         rho = (b @ b.T).astype(complex)
@@ -106,6 +113,9 @@ def check_pair(case, sub="pairs"):
     cl.append(kindc)
     if case["a"][0] == "low" or (how == "indep" and case["b"][0] == "low"):
         cl.append("low_rank")
+    for m in (rho, sigma):
+        if 1e-9 < 1 - np.trace(m @ m).real < 1e-4:
+            cl.append("almost_pure_band")
     icls = kindc
     F = sv.fidelity(rho, sigma)
     T = sv.trace_distance(rho, sigma)
@@ -221,7 +231,7 @@ def check_metric(case, sub="metric"):
     return Info(nontrivial=(0 < F < 1), classes=cl)
 
 
-SPEC = st.tuples(st.sampled_from(["pure", "full", "full", "low", "diag", "nearly_pure", "real"]), st.integers(0, 10**6), st.integers(1, 3)).map(list)
+SPEC = st.tuples(st.sampled_from(["pure", "full", "full", "low", "diag", "nearly_pure", "real", "band"]), st.integers(0, 10**6), st.integers(1, 3)).map(list)
 
 
 def strat_pairs(tier):
